@@ -5,7 +5,7 @@ from predicate import always_false_p, always_true_p, optimize
 from predicate.negate import negate
 from predicate.predicate import AndPredicate, NotPredicate, OrPredicate, XorPredicate
 
-from .. import optcorr, pool
+from .. import lift, optcorr, pool
 from ..core import Check
 
 T, F = always_true_p, always_false_p
@@ -41,6 +41,37 @@ def main(tier):
     cfg, detail = optcorr.detect_cfg()
     chk.extra["cfg"] = cfg
     atoms = [(d, th) for d, th in pool.atom_thunks() if not d.startswith(("all ", "any "))]
+    # the library's own named atoms (neg_p, zero_p, is_int_p, ... : the objects a user imports), each as itself
+    import predicate as _P
+    from predicate.predicate import Predicate as _Pred
+    from predicate.all_predicate import AllPredicate as _All
+    from predicate.any_predicate import AnyPredicate as _Any
+    from predicate.predicate import AndPredicate as _A, NotPredicate as _N, OrPredicate as _O, XorPredicate as _X
+
+    for nm in sorted(set(getattr(_P, "__all__", dir(_P))) | {"neg_p", "zero_p", "pos_p", "eq_true_p", "eq_false_p"}):
+        obj = getattr(_P, nm, None) or getattr(__import__("predicate.standard_predicates", fromlist=[nm]), nm, None)
+        if isinstance(obj, _Pred) and not isinstance(obj, (_A, _O, _X, _N, _All, _Any)) and nm not in ("this_p", "root_p"):
+            try:
+                lift.lift(obj)
+            except Exception:  # noqa: BLE001  (kinds outside the wire format are covered through the pool)
+                continue
+            atoms.append((f"exported {nm}", lambda obj=obj: obj))
+    # history prelude: nested conjunctions / disjunctions / xors over the atoms and their negations are optimised first -- the laws
+    # must hold afterwards exactly as in a fresh process (a helper that keeps operands of earlier calls would show)
+    import random as _random
+
+    hr = _random.Random(chk.seed + 13)
+    thunks_ = [th for _d, th in atoms]
+    for _ in range(400 if tier == "quick" else 3000):
+        a, b, c = (hr.choice(thunks_)() for _k in range(3))
+        if hr.random() < 0.4:
+            c = negate(hr.choice(thunks_)())
+        op1, op2 = hr.choice((_A, _O, _X)), hr.choice((_A, _O))
+        t = op2(left=op1(left=a, right=b), right=c) if hr.random() < 0.5 else op2(left=a, right=op1(left=b, right=c))
+        try:
+            optcorr._watchdog(lambda t=t: optimize(t), ("tt",))
+        except Exception:  # noqa: BLE001
+            pass
     items, expected = [], {}
     import copy
 
